@@ -113,7 +113,7 @@ def classify(cfg, snap, failures, out):
 
 
 def configs(tier):
-    N, G = (4, 3) if tier == "quick" else (5, 4)
+    N, G = (4, 3) if tier == "quick" else (6, 4)
     cfgs = []
     for n in range(1, N + 1):
         for rev in (False, True):
@@ -133,7 +133,7 @@ def units(prop):
                    "src.alignment.alignment_results:AlignmentResultRow.__aggregateHitEnums",
                    "src.alignment.alignment_results:AlignmentResultRow.__removeDuplicateQueryPositionsPreservingLastOne",
                    "src.alignment.alignment_results:AlignmentResultRow.__hitToString"],
-        bounds="n = 1..4 pairs with label gaps 1..3 on both maps (quick) / n = 1..5, gaps 1..4 (thorough); both orientations; the "
+        bounds="n = 1..4 pairs with label gaps 1..3 on both maps (quick) / n = 1..6, gaps 1..4 (thorough, n = 6 under the budget); both orientations; the "
                "pairs in one segment or split over two; first pair's label numbers are unbounded symbolic integers >= 1",
         nontrivial_rule="row with at least two pairs",
         assumptions=["the pairs form a valid matching (strictly ascending reference labels, strictly monotone query labels): C01"],
